@@ -240,6 +240,8 @@ where
                 let mut guard =
                     file.lock_write().await.map_err(|e| e.error)?;
                 guard.inner_mut().set_len(length).await?;
+                #[cfg(sos_verif)]
+                sos_core::verif_hooks::probe("fs_log.rewind.truncated");
 
                 // Records were collected iterating backwards,
                 // return them in the order they were appended
@@ -342,9 +344,13 @@ where
         }
 
         let mut guard = file.lock_write().await.map_err(|e| e.error)?;
+        #[cfg(sos_verif)]
+        sos_core::verif_hooks::probe("fs_log.append.begin");
         match guard.write_all(&buffer).await {
             Ok(_) => {
                 guard.flush().await?;
+                #[cfg(sos_verif)]
+                sos_core::verif_hooks::probe("fs_log.append.written");
                 let mut hashes =
                     commits.iter().map(|c| *c.as_ref()).collect::<Vec<_>>();
                 self.tree.append(&mut hashes);
@@ -423,6 +429,8 @@ where
 
         // Create a snapshot for disc-based implementations
         let snapshot = self.try_create_snapshot().await?;
+        #[cfg(sos_verif)]
+        sos_core::verif_hooks::probe("fs_log.replace_all.snapshot_created");
 
         // Erase the file content and in-memory merkle tree
         self.clear().await?;
@@ -444,6 +452,10 @@ where
             // Delete the snapshot if verified
             (true, Some(snapshot_path)) => {
                 vfs::remove_file(snapshot_path).await?;
+                #[cfg(sos_verif)]
+                sos_core::verif_hooks::probe(
+                    "fs_log.replace_all.snapshot_removed",
+                );
             }
             _ => {}
         }
@@ -542,6 +554,8 @@ where
             .await?;
 
         file.seek(SeekFrom::Start(0)).await?;
+        #[cfg(sos_verif)]
+        sos_core::verif_hooks::probe("fs_log.truncate.emptied");
 
         let mut guard = file.lock_write().await.map_err(|e| e.error)?;
         guard.write_all(self.identity).await?;
@@ -549,6 +563,8 @@ where
             guard.write_all(&version.to_le_bytes()).await?;
         }
         guard.flush().await?;
+        #[cfg(sos_verif)]
+        sos_core::verif_hooks::probe("fs_log.truncate.identity_written");
 
         Ok(())
     }
@@ -653,6 +669,10 @@ where
             }
             guard.write_all(&header).await?;
             guard.flush().await?;
+            #[cfg(sos_verif)]
+            sos_core::verif_hooks::probe(
+                "fs_log.initialize.identity_written",
+            );
         }
 
         Ok(())
@@ -696,7 +716,11 @@ where
         );
 
         vfs::remove_file(&source_path).await?;
+        #[cfg(sos_verif)]
+        sos_core::verif_hooks::probe("fs_log.rollback.source_removed");
         vfs::rename(snapshot_path, &source_path).await?;
+        #[cfg(sos_verif)]
+        sos_core::verif_hooks::probe("fs_log.rollback.snapshot_renamed");
         self.load_tree().await?;
 
         Ok(())
